@@ -2,13 +2,23 @@ package format
 
 // H20d: the real asciiUpper (used by FileNamingFormat to locate the words
 // without changing byte offsets) equals its specification on every string of
-// up to 4 bytes — all byte values, including non-ASCII ones — and keeps the
+// up to 4 bytes — all byte values, including non-ASCII ones — and on 8 concrete
+// longer texts with invalid UTF-8 (case 5), and keeps the
 // length. The template harnesses (h20_format.go) replace asciiUpper by this
 // same specification to avoid three-way forks per template byte; this harness
 // closes that gap. No stub directive in this file: the real function runs.
 func Verif_C20_asciiupper() {
-	n := verifCase(5)
-	s := verifStringN("s", n)
+	n := verifCase(6)
+	var s string
+	if n == 5 {
+		// concrete texts with bytes that are not valid UTF-8, truncated and complete
+		// multi-byte runes: whatever walks the text rune by rune must not re-encode them
+		texts := []string{"\xff", "a\xc3b", "\xe5\x89go", "\u00e9z", "\x80\x80z", "[go\xc3designer]", "\xf0\x9f\x98\x80q\xf0\x9f", "z\xed\xa0\x80"}
+		s = texts[verifChoose("text", len(texts))]
+		verifReach("invalid-utf8")
+	} else {
+		s = verifStringN("s", n)
+	}
 	got := asciiUpper(s)
 	verifAssert(len(got) == len(s), "asciiUpper keeps every byte offset")
 	for i := 0; i < len(s); i++ {
